@@ -218,7 +218,9 @@ def run_ddsmt(workdir,
               env_extra=None,
               cmd_override=None,
               reader=False,
-              argv_prefix=None):
+              argv_prefix=None,
+              stop_when=None,
+              cc_same_basename=False):
     """Run the real ddSMT once.  ``spec``/``cc_spec``: list of rule lines.
     ``launcher``: None (the real executable) or a vlaunch config dict.
     ``entry``: 'bin' (bin/ddsmt) or 'module' (python -m ddsmt).
@@ -242,19 +244,40 @@ def run_ddsmt(workdir,
     vc = vcmd_path()
     # ddSMT copies cmd[0]; give each run its own copy so runs are independent
     cmd = os.path.join(workdir, 'vcmd')
-    if not os.path.exists(cmd):
+    if cc_same_basename and cc_spec is not None:
+        # two builds of one solver: executables with the same file name in
+        # different directories; each carries its spec with it (a trailer
+        # vcmd looks for), so they are different programs
+        cmd = os.path.join(workdir, 'build-a', 'solver')
+        os.makedirs(os.path.dirname(cmd), exist_ok=True)
+        if not os.path.exists(cmd):
+            shutil.copy(vc, cmd)
+            with open(cmd, 'ab') as f:
+                f.write(f'\n#VCMD-SPEC:{specfile}\n'.encode())
+    elif not os.path.exists(cmd):
         shutil.copy(vc, cmd)
     args = list(opts)
     if cc_spec is not None:
         ccfile = os.path.join(workdir, 'spec_cc.txt')
         with open(ccfile, 'w') as f:
             f.write('\n'.join(cc_spec) + '\n')
-        cc = os.path.join(workdir, 'vcmd_cc')
-        if not os.path.exists(cc):
-            shutil.copy(vc, cc)
-        args += ['-c', f'{cc} {ccfile}']
+        if cc_same_basename:
+            cc = os.path.join(workdir, 'build-b', 'solver')
+            os.makedirs(os.path.dirname(cc), exist_ok=True)
+            if not os.path.exists(cc):
+                shutil.copy(vc, cc)
+                with open(cc, 'ab') as f:
+                    f.write(f'\n#VCMD-SPEC:{ccfile}\n'.encode())
+            args += ['-c', f'{cc}']
+        else:
+            cc = os.path.join(workdir, 'vcmd_cc')
+            if not os.path.exists(cc):
+                shutil.copy(vc, cc)
+            args += ['-c', f'{cc} {ccfile}']
     if cmd_override is not None:
         cmdline = list(cmd_override)
+    elif cc_same_basename and cc_spec is not None:
+        cmdline = [cmd] + list(extra_cmd_args)
     else:
         cmdline = [cmd, specfile] + list(extra_cmd_args)
     args += [infile, outfile] + cmdline
@@ -302,6 +325,7 @@ def run_ddsmt(workdir,
     so.close()
     se.close()
     timed_out = False
+    stopped_early = False
     sent_signal = False
     reader_seen = {}
     reader_stop = []
@@ -347,6 +371,22 @@ def run_ddsmt(workdir,
                 os.kill(proc.pid, signal_no)
                 sent_signal = True
                 proc.wait(timeout=timeout)
+        elif stop_when is not None:
+            # end the run as soon as the caller has seen enough (e.g. the
+            # number of accepted steps that proves a cycle)
+            deadline = time.time() + timeout
+            while proc.poll() is None:
+                if time.time() > deadline:
+                    raise subprocess.TimeoutExpired(argv, timeout)
+                if stop_when(workdir):
+                    stopped_early = True
+                    try:
+                        os.killpg(proc.pid, signal.SIGKILL)
+                    except OSError:
+                        pass
+                    proc.wait()
+                    break
+                time.sleep(0.05)
         else:
             proc.wait(timeout=timeout)
     except subprocess.TimeoutExpired:
@@ -404,6 +444,7 @@ def run_ddsmt(workdir,
     r.stderr = err.decode('utf-8', 'replace')
     r.wall = time.time() - t0
     r.timed_out = timed_out
+    r.stopped_early = stopped_early
     r.sent_signal = sent_signal
     r.lingering_group = lingering
     r.lingering_procs = lingering_procs
@@ -414,6 +455,7 @@ def run_ddsmt(workdir,
     r.workdir = workdir
     r.specfile = specfile
     r.cmd = cmd
+    r.cc_cmd = cc if cc_spec is not None else None
     with open(infile, 'rb') as f:
         after = f.read()
     r.infile_unchanged = (after == data) and refreader.fnv1a(
